@@ -82,8 +82,10 @@ theorem bodyStep_congr (env : Env L) (a c t : Node L) (b : Block)
       · rename_i h1 h2 h3
         rw [if_neg h1, if_neg h2, if_neg h3]
         obtain ⟨l', ha, hn', ht⟩ := storeBlock_ok env c t b h
+        have hprim := storeBlock_ok_primary env c t b h
         unfold storeBlock
         rw [hl, ha]
+        simp only [hprim, Bool.not_true, Bool.false_eq_true, if_false]
         simp only [hn l', hn', if_true]
         rw [ht]
         congr 1
